@@ -288,13 +288,15 @@ Proof.
   { destruct e; [exact (pres_st_expire_mw E _ _ _ H1)|inversion H1; reflexivity]. }
   clear H1. cbv zeta. cbn beta iota.
   apply gen_guarded_bind.
-  { unfold remember_mw. apply gen_guarded_bind; [apply gen_guarded_of_neutral; evs_go|intros id h2 H2].
-    apply current_user_id_same in H2. subst h2.
-    destruct (bempty id); [|apply (gen_guarded_of_evs _ any_ev); apply evs_ret].
-    apply gen_guarded_try.
-    - rewrite <- St1. apply put_of_guarded. exact (remember_authenticate_guard (with_sess E sess) h1).
-    - intros x h3 _. apply gen_guarded_of_neutral. destruct x; evs_go. }
-  intros [] h4 _. apply gen_guarded_of_neutral.
+  { apply gen_guarded_bind.
+    { unfold remember_mw. apply gen_guarded_bind; [apply gen_guarded_of_neutral; evs_go|intros id h2 H2].
+      apply current_user_id_same in H2. subst h2.
+      destruct (bempty id); [|apply (gen_guarded_of_evs _ any_ev); apply evs_ret].
+      apply gen_guarded_try.
+      - rewrite <- St1. apply put_of_guarded. exact (remember_authenticate_guard (with_sess E sess) h1).
+      - intros x h3 _. apply gen_guarded_of_neutral. destruct x; evs_go. }
+    intros [] h3 _. apply gen_guarded_of_neutral. apply evs_remembered_view. }
+  intros sess2 h4 _. apply gen_guarded_of_neutral.
   apply evs_bind; [apply neutral_auth_middleware|intros ok]. destruct (negb ok); [apply evs_ret|].
   apply evs_bind; [destruct l; [apply neutral_lock_mw|apply evs_ret]|intros ok2]. destruct (negb ok2); [apply evs_ret|].
   apply evs_bind; [destruct c; [apply neutral_confirm_mw|apply evs_ret]|intros ok3]. destruct (negb ok3); [apply evs_ret|].
@@ -308,7 +310,7 @@ Lemma evs_any_app_stack E full tf fr l c r e : evs_all any_ev any_ev (app_stack 
 Proof.
   unfold app_stack.
   apply evs_bind; [destruct e; [unfold expire_mw; repeat evs_step; exact I|apply evs_ret]|intros sess]. cbv zeta.
-  apply evs_bind; [destruct r; [eapply evs_any, nodrop_remember_mw|apply evs_ret]|intros _].
+  apply evs_bind; [destruct r; [apply evs_bind; [eapply evs_any, nodrop_remember_mw|intros _; apply evs_remembered_view]|apply evs_ret]|intros sess2].
   apply evs_bind; [eapply evs_any, neutral_auth_middleware|intros ok]. destruct (negb ok); [apply evs_ret|].
   apply evs_bind; [destruct l; [eapply evs_any, neutral_lock_mw|apply evs_ret]|intros ok2]. destruct (negb ok2); [apply evs_ret|].
   apply evs_bind; [destruct c; [eapply evs_any, neutral_confirm_mw|apply evs_ret]|intros ok3]. destruct (negb ok3); [apply evs_ret|].
